@@ -443,7 +443,7 @@ class Daemon(object):
                     # batched method calls, loop over them all and collect all results
                     data = []
                     for method, vargs, kwargs in vargs:
-                        method = _get_attribute(obj, method)
+                        method = _get_exposed_method(obj, method)
                         try:
                             result = method(*vargs, **kwargs)  # this is the actual method call to the Pyro object
                         except Exception as xv:
@@ -481,7 +481,7 @@ class Daemon(object):
                             fromUserCode = True
                             raise
                     else:
-                        method = _get_attribute(obj, method)
+                        method = _get_exposed_method(obj, method)
                         if request_flags & protocol.FLAGS_ONEWAY:
                             # oneway call to be run inside its own thread, otherwise client blocking can still occur
                             #    on the next call on the same proxy
@@ -956,6 +956,18 @@ def _get_attribute(obj: Any, attr: str) -> Any:
     if getattr(obj, "_pyroExposed", False):
         return obj
     raise AttributeError("attempt to access unexposed attribute '%s'" % attr)
+
+
+def _get_exposed_method(obj: Any, name: str) -> Callable:
+    """
+    Resolves the name of a remotely callable method: an exposed attribute that is a method or function,
+    the same notion of 'method' as is used for the metadata. Other exposed attributes (such as an attribute
+    holding an instance of an exposed class, or the class itself) are not callable remotely.
+    """
+    method = _get_attribute(obj, name)
+    if inspect.ismethod(method) or inspect.isfunction(method) or inspect.ismethoddescriptor(method):
+        return method
+    raise AttributeError("attempt to call attribute '%s' that is not a method" % name)
 
 
 __exposed_member_cache = {}     # type: Dict[Tuple[type, bool], Dict[str, Set[str]]]
